@@ -78,6 +78,14 @@ def simulated(rnd, i):
                 _, err = outcome(lambda: run_with(Solver(b['pt']), b['q']('TimeInterval', d3, u3), b['q']('TimeInterval', d3 * (n_inst - 1), u3)))
                 if err is None and len(b['pt'].time) != n_inst:
                     err = 'length'
+        if err is None and i % 2 == 0:
+            # whatever happened so far, the history that is finally queried is NOT uniformly spaced: one more continuation with a step
+            # that differs from the step of the instants before it (the tables are looked up on the recorded instants, not on a grid)
+            tl = b['pt'].time
+            last_step = Fraction(tl[-1].to('sec').value) - Fraction(tl[-2].to('sec').value)
+            d4 = last_step * rnd.choice([Fraction(1, 2), Fraction(2), Fraction(3, 4), Fraction(5, 2)])
+            u4 = rnd.choice(solver_gen.TIME_UNITS)
+            _, err = outcome(lambda: run_with(Solver(b['pt']), b['q']('TimeInterval', d4, u4), b['q']('TimeInterval', d4 * rnd.randint(2, 4), u4)))
         if err is None and i % 2 == 1:
             pw = b['objs'][0].time_variables.get('pwm', [])
             if len({float(x) for x in pw}) < 2:
@@ -235,6 +243,13 @@ def gen(tier, seed):
         for _ in range(2 if tier == 'quick' else 4):
             j = rnd.randrange(len(tsi) - 1)
             targets.append(tsi[j] + (tsi[j + 1] - tsi[j]) * Fraction(rnd.randint(1, 99), 100))
+        # every recorded instant and the middle of every interval, for the table of all variables
+        for j in range(len(tsi)):
+            tq = b['pt'].time[j]
+            evs.append(snap_event(eid(), b, time, hist, tsi[j], tq.unit, None, units_choice(rnd, default=(j % 2 == 0)), tq))
+            if j + 1 < len(tsi):
+                evs.append(snap_event(eid(), b, time, hist, (tsi[j] + tsi[j + 1]) / 2, rnd.choice(solver_gen.TIME_UNITS), None, units_choice(rnd, default=(j % 2 == 1))))
+        stats['instants_and_midpoints'] = stats.get('instants_and_midpoints', 0) + 2 * len(tsi) - 1
         # variable selections
         sels = [None] + [(v,) for v in avail] + [tuple(v for v in avail if v != w) for w in avail]
         sels += [c for c in itertools.combinations(avail, 2)][: (12 if tier == 'quick' else 10**6)]
